@@ -157,6 +157,10 @@ impl<L: Language> Pattern<L> {
   }
 
   pub fn fixed_string(&self) -> Cow<str> {
+    // under `signature` strictness token text is not compared: no literal has to occur in a matching file
+    if matches!(self.strictness, MatchStrictness::Signature) {
+      return Cow::Borrowed("");
+    }
     self.node.fixed_string()
   }
 
